@@ -10,6 +10,7 @@ import contextlib
 import io
 import itertools
 import random
+import signal
 import time
 
 import vlib
@@ -18,6 +19,7 @@ import models
 SIZES = [1, 15, 16, 17, 48, 100, 112, 256]
 ALIGNS = [16, 32, 64, 128]
 MIN_IMPROVE = 500
+TIMEOUT_WHY = "the allocator does not terminate within %g s of CPU time on this input (a run of the unchanged code takes milliseconds to a few seconds)"
 P8_SMALL = [(3, 3, 100, 128), (1, 2, 100, 16), (0, 1, 1, 32), (1, 1, 16, 32), (2, 3, 1, 64)]   # = AllocExamples.p8_witness
 P8_WITNESS = [(4, 4, 17, 128), (4, 5, 1, 16), (5, 5, 16, 32), (3, 3, 100, 16), (5, 5, 1, 64), (3, 3, 16, 64),
               (3, 4, 15, 128), (5, 6, 1, 64)]
@@ -29,6 +31,32 @@ def round_up(a, b):
 
 # ------------------------------------------------------------------------------------------------
 # synthetic objects accepted by the real allocators
+class CaseTimeout(BaseException):
+    """a call into the implementation used more than its CPU (or wall clock) allowance"""
+
+
+CASE_LIMIT = {"quick": 15.0, "thorough": 60.0}   # CPU seconds per call into the implementation
+_limit = [15.0]
+
+
+def bounded(fn, *args):
+    """fn(*args) under a CPU-time limit (ITIMER_VIRTUAL, so machine load does not matter) and a ten times larger
+    wall-clock limit; raises CaseTimeout.  A check must never hang on a changed allocator."""
+    def onalarm(sig, frame):
+        raise CaseTimeout()
+    old_v = signal.signal(signal.SIGVTALRM, onalarm)
+    old_r = signal.signal(signal.SIGALRM, onalarm)
+    signal.setitimer(signal.ITIMER_VIRTUAL, _limit[0])
+    signal.setitimer(signal.ITIMER_REAL, 10 * _limit[0])
+    try:
+        return fn(*args)
+    finally:
+        signal.setitimer(signal.ITIMER_VIRTUAL, 0)
+        signal.setitimer(signal.ITIMER_REAL, 0)
+        signal.signal(signal.SIGVTALRM, old_v)
+        signal.signal(signal.SIGALRM, old_r)
+
+
 class FakeOp:
     def __init__(self, npu):
         self.run_on_npu = npu
@@ -79,12 +107,15 @@ def run_greedy_impl(ranges, names):
     from ethosu.vela import greedy_allocation, tensor_allocation
     from ethosu.vela.errors import AllocationError
     g = make_graph(ranges, names)
-    total = greedy_allocation.allocate_live_ranges(g, 16)
     guard = None
     try:
-        tensor_allocation.verify_allocation(g, 16)
-    except AllocationError as ex:
-        guard = str(ex)
+        total = bounded(greedy_allocation.allocate_live_ranges, g, 16)
+        try:
+            bounded(tensor_allocation.verify_allocation, g, 16)
+        except AllocationError as ex:
+            guard = str(ex)
+    except CaseTimeout:
+        return {"addr": addresses(g), "total": None, "guard": None, "timeout": _limit[0]}
     return {"addr": addresses(g), "total": total, "guard": guard}
 
 
@@ -97,7 +128,9 @@ def run_linear_impl(gran, entries):
           for i, e in enumerate(entries)]
     g = make_graph(ranges, None, kw)
     try:
-        total = tensor_allocation.linear_allocate_live_ranges(g, gran)
+        total = bounded(tensor_allocation.linear_allocate_live_ranges, g, gran)
+    except CaseTimeout:
+        return {"addr": addresses(g), "total": None, "guard": None, "timeout": _limit[0]}
     except AssertionError:
         return {"err": 6}
     except AllocationError as ex:
@@ -146,10 +179,12 @@ def run_hillclimb_impl(ranges, max_iter, limit, supply=None):
         return r
     cls.allocate_indices = counting
     rec.install()
-    out = {"err": None, "guard": None, "total": None}
+    out = {"err": None, "guard": None, "total": None, "timeout": None}
     try:
         with contextlib.redirect_stdout(io.StringIO()):
-            out["total"] = tensor_allocation.hillclimb_allocate_live_ranges(g, 16, max_iter, limit)
+            out["total"] = bounded(tensor_allocation.hillclimb_allocate_live_ranges, g, 16, max_iter, limit)
+    except CaseTimeout:
+        out["timeout"] = _limit[0]
     except ValueError as ex:
         out["err"] = 1 if "empty range" in str(ex) else "ValueError: %s" % ex
     except IndexError:
@@ -170,7 +205,10 @@ def hc_static_impl(ranges):
     from ethosu.vela import hillclimb_allocation
     g = make_graph(ranges)
     with contextlib.redirect_stdout(io.StringIO()):
-        a = hillclimb_allocation.HillClimbAllocator(g.lrs, 0, 1 << 40)
+        try:
+            a = bounded(hillclimb_allocation.HillClimbAllocator, g.lrs, 0, 1 << 40)
+        except CaseTimeout:
+            return ["timeout"]
     res = [a.min_required_size] + [lr.id for lr in sorted(a.lrs)] + [-1]
     for lr in a.lrs:
         res += [n.id for n in lr.neighbours] + [-1]
@@ -331,6 +369,20 @@ def linear_same(ents):
     return (lambda i, j: find(i) == find(j)), find
 
 
+def run_cases(fn, argslist, max_timeouts=2):
+    """fn(*args) for each args; stops after max_timeouts cases that exceeded their time allowance"""
+    out = []
+    n_to = 0
+    for a in argslist:
+        o = fn(*a)
+        out.append(o)
+        if isinstance(o, dict) and o.get("timeout"):
+            n_to += 1
+            if n_to >= max_timeouts:
+                break
+    return out
+
+
 def flat_lrs(ranges, names=None):
     out = [len(ranges)]
     for i, r in enumerate(ranges):
@@ -341,6 +393,7 @@ def flat_lrs(ranges, names=None):
 # ------------------------------------------------------------------------------------------------
 def run(tier):
     res = vlib.Result("C05", tier, "proof")
+    _limit[0] = CASE_LIMIT.get(tier, 15.0)
     b = vlib.build_property("C05")
     vlib.proof_coverage(res, b, [
         "extraction (ExtrOcamlBasic only) + ocaml/driver.ml for the correspondence run (build/alloc)",
@@ -362,7 +415,14 @@ def run(tier):
     zero_overlaps = 0
     known_p8 = []
 
+    timeouts = []        # cases on which the implementation did not return in time
+
     def bad(kind, ranges, why, extra=None):
+        if "does not terminate" in why:
+            d = {"allocator": kind, "ranges": ranges, "reason": why}
+            d.update(extra or {})
+            timeouts.append(({"allocator": kind, "nontermination": True, "ranges": str(ranges)[:400]}, d, "%s: %s" % (kind, why)))
+            return
         if len(first_bad) < 3:
             d = {"allocator": kind, "ranges": ranges, "reason": why}
             d.update(extra or {})
@@ -372,30 +432,42 @@ def run(tier):
     t_g = time.time()
     # ---------------- Greedy ----------------
     gcases = [(r, rng.sample(range(len(r)), len(r))) for r in cases["greedy"]]
-    gimpl = [run_greedy_impl(r, nm) for r, nm in gcases]
+    gimpl = run_cases(run_greedy_impl, gcases)
+    gcases = gcases[:len(gimpl)]
     for (r, nm), o in zip(gcases, gimpl):
         evals += 1
         if any(co_live(r[i], r[j]) for i in range(len(r)) for j in range(i)):
             nontrivial += 1
+        if o.get("timeout"):
+            bad("greedy", r, TIMEOUT_WHY % o["timeout"], {"names": nm})
+            continue
         why = oracle("greedy", r, o["addr"], o["total"])
         if why:
             bad("greedy", r, why, {"addresses": o["addr"], "total": o["total"]})
-    zimpl = [run_greedy_impl(r, list(range(len(r)))) for r in cases["zero"]]
-    for r, o in zip(cases["zero"], zimpl):
+    zcases = cases["zero"] if not any(o.get("timeout") for o in gimpl) else []
+    zimpl = run_cases(run_greedy_impl, [(r, list(range(len(r)))) for r in zcases])
+    zcases = zcases[:len(zimpl)]
+    cases["zero_greedy"] = zcases
+    for r, o in zip(zcases, zimpl):
         evals += 1
-        if oracle("greedy", r, o["addr"], o["total"]):
+        if o.get("timeout"):
+            bad("greedy", r, TIMEOUT_WHY % o["timeout"])
+        elif oracle("greedy", r, o["addr"], o["total"]):
             zero_overlaps += 1      # outside the property's hypothesis 0 < size (greedy_zero_size_refuted)
     if okx:
-        mo = models.run("greedy", [flat_lrs(r, nm) for r, nm in gcases] + [flat_lrs(r) for r in cases["zero"]], exe_name="alloc")
-        allc = gcases + [(r, list(range(len(r)))) for r in cases["zero"]]
+        mo = models.run("greedy", [flat_lrs(r, nm) for r, nm in gcases] + [flat_lrs(r) for r in zcases], exe_name="alloc")
+        allc = gcases + [(r, list(range(len(r)))) for r in zcases]
         for (r, nm), o, m in zip(allc, gimpl + zimpl, mo):
+            if o.get("timeout"):
+                continue
             pos = {nm[i]: i for i in range(len(r))}
             maddr = [None] * len(r)
             for k in range(1, len(m), 2):
                 maddr[pos[m[k]]] = m[k + 1]
             if maddr != o["addr"] or m[0] != o["total"]:
                 diffs.append(("greedy", r, {"model": [m[0], maddr], "impl": [o["total"], o["addr"]], "names": nm}))
-    samples.append({"allocator": "greedy", "ranges": gcases[3][0], "addresses": gimpl[3]["addr"], "total": gimpl[3]["total"]})
+    if len(gimpl) > 3:
+        samples.append({"allocator": "greedy", "ranges": gcases[3][0], "addresses": gimpl[3]["addr"], "total": gimpl[3]["total"]})
 
     phase["greedy"] = round(time.time() - t_g, 1)
     t_l = time.time()
@@ -403,9 +475,13 @@ def run(tier):
     nl = 3000 if tier == "quick" else 60000
     lcases = [(rng.choice([16, 16, 32, 64, 128, 256]), gen_linear(rng, rng.choice([1, 2, 3, 5, 8, 20, 60]))) for _ in range(nl)]
     lcases += [(16, gen_linear(rng, 300)) for _ in range(3 if tier == "quick" else 40)]
-    limpl = [run_linear_impl(g, e) for g, e in lcases]
+    limpl = run_cases(run_linear_impl, lcases)
+    lcases = lcases[:len(limpl)]
     for (g, e), o in zip(lcases, limpl):
         evals += 1
+        if o.get("timeout"):
+            bad("linear", [(0, 1, x[0], g) for x in e], TIMEOUT_WHY % o["timeout"], {"granularity": g, "entries": e})
+            continue
         if "err" in o:
             continue
         r = [(0, 1, x[0], g) for x in e]
@@ -427,11 +503,14 @@ def run(tier):
     if okx:
         mo = models.run("linear", [[g, len(e)] + [v for x in e for v in x] for g, e in lcases], exe_name="alloc")
         for (g, e), o, m in zip(lcases, limpl, mo):
+            if o.get("timeout"):
+                continue
             want = [0, o["err"]] if "err" in o else [1, o["total"]] + o["addr"]
             if m != want:
                 diffs.append(("linear", e, {"model": m[:50], "impl": want[:50], "granularity": g}))
-    samples.append({"allocator": "linear", "granularity": lcases[5][0], "entries(size,wcc,scc,lut,eq)": lcases[5][1][:8],
-                    "result": {k: v for k, v in limpl[5].items()}})
+    if len(limpl) > 5:
+        samples.append({"allocator": "linear", "granularity": lcases[5][0], "entries(size,wcc,scc,lut,eq)": lcases[5][1][:8],
+                        "result": {k: v for k, v in limpl[5].items()}})
 
     phase["linear"] = round(time.time() - t_l, 1)
     # ---------------- HillClimb ----------------
@@ -439,7 +518,7 @@ def run(tier):
     for k, r in enumerate(cases["zero"][: (60 if tier == "quick" else 1500)] + cases["hill"]):
         pk = peak(r)
         mi = rng.choice([None, 0, 0, 1, 7, 100, 600, 1500])
-        lim = rng.choice([0, pk, pk + 16, 1 << 32, 1 << 32])
+        lim = rng.choice([0, pk // 2, max(pk - 1, 0), pk, pk + 1, pk + 16, 2 * pk, 1 << 32, 1 << 32, 1 << 32])   # below, at and above the peak
         if mi is None and lim < (1 << 32) and (len(r) > 5 or k % (50 if tier == "quick" else 25)):
             lim = 1 << 32        # max_iterations None with an unreachable limit means 99999 passes: only a few
         adversarial = (k % 3 == 1)
@@ -448,10 +527,12 @@ def run(tier):
     hc_budget = 20 if tier == "quick" else 300
     t_h = time.time()
     done_h = 0
+    hc_timeouts = 0
     for r, mi, lim, adv in hcases:
-        if time.time() - t_h > hc_budget:
+        if time.time() - t_h > hc_budget or hc_timeouts >= 2:
             break
         himpl.append(run_hillclimb_impl(r, mi, lim, random.Random(rng.getrandbits(32)) if adv else None))
+        hc_timeouts += 1 if himpl[-1]["timeout"] else 0
         done_h += 1
     hcases = hcases[:done_h]
     iters_seen = {"0": 0, "1-499": 0, "500+": 0}
@@ -461,6 +542,11 @@ def run(tier):
             nontrivial += 1
         its = o["passes"] - 1
         iters_seen["0" if its <= 0 else ("1-499" if its < 500 else "500+")] += 1
+        if o["timeout"]:
+            bad("hillclimb", r, TIMEOUT_WHY % o["timeout"],
+                {"max_iterations": mi, "memory_limit": lim, "adversarial_stream": adv, "search_passes_so_far": its,
+                 "randint_results_so_far": o["stream"][:200], "addresses_so_far": o["addr"]})
+            continue
         if o["err"] is not None:
             key = {"allocator": "hillclimb", "exception": "ValueError randint" if o["err"] == 1 else str(o["err"])}
             known_p8.append((key, {"ranges": r, "max_iterations": mi, "memory_limit": lim, "stream": o["stream"][-20:],
@@ -485,6 +571,8 @@ def run(tier):
         mo = models.run("hillclimb", [[0 if mi is None else 1, mi or 0, lim] + flat_lrs(r) + o["stream"]
                                        for (r, mi, lim, adv), o in zip(hcases, himpl)], exe_name="alloc")
         for (r, mi, lim, adv), o, m in zip(hcases, himpl, mo):
+            if o["timeout"]:
+                continue
             if o["err"] is not None:
                 want = [0, o["err"]]
                 got = m
@@ -501,9 +589,12 @@ def run(tier):
         for (r, _, _, _), m in zip(st, so):
             evals += 1
             w = hc_static_impl(r)
+            if w == ["timeout"]:
+                bad("hillclimb", r, "HillClimbAllocator.__init__: " + TIMEOUT_WHY % _limit[0])
+                break
             if m != w:
                 diffs.append(("hc_static", r, {"model": m[:60], "impl": w[:60]}))
-    if hcases:
+    if len(hcases) > 3:
         samples.append({"allocator": "hillclimb", "ranges": hcases[3][0], "max_iterations": hcases[3][1], "memory_limit": hcases[3][2],
                         "addresses": himpl[3]["addr"], "total": himpl[3]["total"], "randint_results": himpl[3]["stream"][:12]})
 
@@ -522,6 +613,8 @@ def run(tier):
         "model_vs_impl_differences": len(diffs),
         "greedy_overlaps_in_zero_size_stream(outside hypothesis 0<size)": zero_overlaps,
         "hillclimb_randint_errors": len(known_p8),
+        "implementation_calls_over_time_limit": len(timeouts),
+        "per_call_cpu_limit_s": _limit[0],
     })
     res.assumptions += ["sizes and times are Python ints; HillClimb: 0 <= start_time, 0 <= size, 0 < alignment and "
                         "sum(size + alignment) <= 2^63 (the initial pass cannot exceed best_size = 1 << 63)",
@@ -539,9 +632,13 @@ def run(tier):
     def search():
         return first_bad[0] if first_bad else None
 
+    for k, d, w in timeouts[:1]:
+        res.violation(k, d, w)
     if first_bad:
         for k, d, w in first_bad[:1]:
             res.violation(k, d, w)
+    elif timeouts:
+        pass
     elif not b["ok"]:
         vlib.report_broken_build(res, b, search)
     elif diffs or not okx:
